@@ -307,6 +307,11 @@ def congruence_comparer(comparer_params_eval, student_eval, utils):
 
     expected_reduced = expected % modulus
     input_reduced = student_eval % modulus
+    if np.ndim(input_reduced) == 0:
+        # Use the representative of the input closest to the reduced target, so that
+        # values just below a multiple of the modulus match targets just above it
+        input_reduced = min([input_reduced - modulus, input_reduced, input_reduced + modulus],
+                            key=lambda value: abs(value - expected_reduced))
     return utils.within_tolerance(expected_reduced, input_reduced)
 
 def eigenvector_comparer(comparer_params_eval, student_eval, utils):
